@@ -206,6 +206,9 @@ def gen_schema(rng, variant=0):
         types.append({"name": "Mutation", "kind": "o", "fields": mfields, "ifaces": []})
         mutation = "Mutation"
     conf = {"snake": rng.random() < 0.8, "async": rng.random() < 0.5, "customs": customs}
+    if variant % 3 == 1:      # configured module names (fixes 2282fe6 / 9abf1db)
+        conf["enums_module"] = "my_enums"
+        conf["inputs_module"] = "my_inputs"
     return {"types": types, "query": "Query", "mutation": mutation, "enums": enums, "inputs": inputs,
             "customs": customs, "conf": conf}
 
@@ -285,7 +288,9 @@ def config(sc, pkg):
     return {"tool": {"ariadne-codegen": {
         "schema_path": "schema.graphql", "enable_custom_operations": True, "target_package_name": pkg,
         "convert_to_snake_case": sc["conf"]["snake"], "async_client": sc["conf"]["async"],
-        "include_comments": "none", "scalars": scal}}}
+        "include_comments": "none", "scalars": scal,
+        "enums_module_name": sc["conf"].get("enums_module", "enums"),
+        "input_types_module_name": sc["conf"].get("inputs_module", "input_types")}}}
 
 
 # ---- sexp encoding of the world for the Coq model ----
@@ -340,15 +345,16 @@ def collected(sc):
 
 
 # ---- values ----
-def gen_value(rng, sc, t, depth=0):
-    """-> (wire JSON value, tagged value for the driver)"""
+def gen_value(rng, sc, t, depth=0, bad=False):
+    """-> (wire JSON value, tagged value for the driver); bad: malformed stream — a None item may
+    stand at a NON-NULL item position (outside g_conform for serialised scalars)"""
     if t[0] == "nn":
-        return gen_value(rng, sc, t[1], depth)
+        return gen_value(rng, sc, t[1], depth, bad)
     if t[0] == "l":
         k = rng.choice([0, 1, 2, 2])
-        vs = [gen_value(rng, sc, t[1], depth + 1) for _ in range(k)]
-        if t[1][0] != "nn":        # nullable items: sometimes a None item
-            vs = [(None, None) if rng.random() < 0.15 else v for v in vs]
+        vs = [gen_value(rng, sc, t[1], depth + 1, bad) for _ in range(k)]
+        if t[1][0] != "nn" or (bad and final(t) in sc["customs"]):   # nullable items: sometimes a None item
+            vs = [(None, None) if rng.random() < (0.5 if bad else 0.15) else v for v in vs]
         return [v[0] for v in vs], {"list": [v[1] for v in vs]}
     n = t[1]
     if n in ("ID", "String"):
@@ -386,6 +392,7 @@ class ExprGen:
         self.tm = {t["name"]: t for t in sc["types"]}
         self.present = present                     # generated class names
         self.stats = {}
+        self.bad_used = False
 
     def possible(self, tname):
         t = self.tm[tname]
@@ -419,7 +426,9 @@ class ExprGen:
                     out.append([am[0], None])           # explicit None
                     tagged.append([am[1], None])
                     continue
-                w, g = gen_value(self.rng, self.sc, ad["type"])
+                bad = edge and self.rng.random() < 0.06
+                self.bad_used = self.bad_used or bad
+                w, g = gen_value(self.rng, self.sc, ad["type"], bad=bad)
                 out.append([am[0], w])
                 tagged.append([am[1], g])
         return out, tagged
